@@ -7,7 +7,7 @@ import vlib
 from vlib import Violation, qc, coq_list
 
 ID = "C17"
-GEN_UNITS = ["Regs", "BSpline"]
+GEN_UNITS = ["Regs", "BSpline", "FlowDeriv"]
 PROPS_FILE = "Props/C17.v"
 PROPS_MOD = "Props.C17"
 COQ_TARGETS = ["Props/C17.vo"]
